@@ -185,6 +185,12 @@ type RunResult struct {
 	Preemptions int // releases of a task other than the last-run one while that one was still enabled
 	HeldSwitch  int // context switches while some task held a stripe
 	StepLimit   bool
+	// MapOrderDependent: the run issued a command whose outcome follows Go's
+	// map iteration order (SPOP, SRANDMEMBER, HRANDFIELD): not exactly repeatable.
+	MapOrderDependent bool
+	// KeysScan: a KEYS command walked the keyspace in map order (its lock requests
+	// come in an unseedable order; everything else about the run is repeatable).
+	KeysScan bool
 	Mgr         *server.Manager
 	OrderEdges  int
 	start       time.Time
@@ -211,6 +217,12 @@ type World struct {
 
 func (w *World) trace(format string, a ...any) {
 	s := fmt.Sprintf(format, a...)
+	w.traceHashed(s, s)
+}
+
+// traceHashed records `full` in the readable trace and `hashed` in the trace hash.
+func (w *World) traceHashed(hashed, full string) {
+	s := hashed
 	hh := fnv.New64a()
 	var b [8]byte
 	for i := 0; i < 8; i++ {
@@ -220,8 +232,46 @@ func (w *World) trace(format string, a ...any) {
 	hh.Write([]byte(s))
 	w.h = hh.Sum64()
 	if w.keep || len(w.res.Trace) < 4000 {
-		w.res.Trace = append(w.res.Trace, s)
+		w.res.Trace = append(w.res.Trace, full)
 	}
+}
+
+func (w *World) traceNoHash(format string, a ...any) {
+	if w.keep || len(w.res.Trace) < 4000 {
+		w.res.Trace = append(w.res.Trace, fmt.Sprintf(format, a...))
+	}
+}
+
+// unordered replies come back in Go map iteration order, which cannot be
+// seeded: they enter the trace hash in a canonical (sorted) form.
+var unorderedReply = map[string]int{"smembers": 1, "sunion": 1, "sinter": 1, "sdiff": 1, "hkeys": 1, "hvals": 1, "keys": 1, "hgetall": 2}
+
+// randomChoice commands pick by map iteration order: only the size of their
+// reply is hashed, and the run is marked as not exactly repeatable.
+var randomChoice = map[string]bool{"spop": true, "srandmember": true, "hrandfield": true}
+
+func canonReply(args []B, v rd.Value) string {
+	if len(args) == 0 || v.Kind != rd.Array {
+		return v.String()
+	}
+	name := strings.ToLower(string(args[0]))
+	if randomChoice[name] {
+		return fmt.Sprintf("[%d elements chosen by map order]", len(v.Arr))
+	}
+	step := unorderedReply[name]
+	if step == 0 {
+		return v.String()
+	}
+	var items []string
+	for i := 0; i+step <= len(v.Arr); i += step {
+		it := ""
+		for j := 0; j < step; j++ {
+			it += v.Arr[i+j].String() + " "
+		}
+		items = append(items, it)
+	}
+	sort.Strings(items)
+	return "{" + strings.Join(items, "") + "}"
 }
 
 var registered bool
@@ -358,13 +408,16 @@ func (w *World) collect() {
 					continue
 				}
 				c.pushes = append(c.pushes, PushRec{Seq: w.res.Seq, At: time.Now(), V: v})
-				w.trace("c%d push %s", i, truncate(v.String(), 80))
+				// the order in which a publisher reaches its subscribers follows Go's map
+				// iteration: the push is kept in the readable trace but not in the hash
+				// (the multiset of pushes per client is hashed at the end of the run)
+				w.traceNoHash("c%d push %s", i, truncate(v.String(), 80))
 				continue
 			}
 			op := c.waiting[0]
 			c.waiting = c.waiting[1:]
 			op.Reply, op.Done, op.ReturnSeq, op.ReturnAt = v, true, w.res.Seq, time.Now()
-			w.trace("c%d reply#%d %s", i, op.StepIdx, truncate(v.String(), 80))
+			w.trace("c%d reply#%d %s", i, op.StepIdx, truncate(canonReply(op.Args, v), 80))
 			c.lastDone = op
 			if c.prog.Role == "subscriber" && len(op.Args) > 0 && strings.EqualFold(string(op.Args[0]), "subscribe") && v.Kind == rd.Array {
 				c.pushMode = true
@@ -673,6 +726,18 @@ func (w *World) deadlock() string {
 	return strings.Join(parts, "; ")
 }
 
+func opName(t *vsync.Task) string {
+	s := t.String()
+	if i := strings.IndexByte(s, '@'); i >= 0 {
+		s = s[i+1:]
+		if j := strings.IndexByte(s, '('); j >= 0 {
+			s = s[:j]
+		}
+		return s
+	}
+	return "?"
+}
+
 func lockIDOf(t *vsync.Task) int {
 	s := t.String()
 	if i := strings.Index(s, "(m"); i >= 0 {
@@ -700,7 +765,9 @@ func (w *World) apply(e event) {
 				w.res.HeldSwitch++
 			}
 		}
-		w.trace("run %s", e.task.String())
+		// KEYS visits the keys in Go map order, so which stripe it asks for next is
+		// not seedable: the hash covers (task, operation), the readable trace also the lock
+		w.traceHashed("run "+e.task.Name+"@"+opName(e.task), "run "+e.task.String())
 		w.last = e.task
 		w.vs.Release(e.task)
 	case "send":
@@ -714,6 +781,12 @@ func (w *World) apply(e event) {
 			c.ops = append(c.ops, op)
 			c.waiting = append(c.waiting, op)
 			w.trace("c%d send#%d %s", e.client, c.next, truncate(cmdString(st.Args), 100))
+			if len(st.Args) > 0 && randomChoice[strings.ToLower(string(st.Args[0]))] {
+				w.res.MapOrderDependent = true
+			}
+			if len(st.Args) > 0 && strings.EqualFold(string(st.Args[0]), "keys") {
+				w.res.KeysScan = true
+			}
 			if w.j != nil {
 				w.j.Step("sig=%s", deathSignature(w.sc.Kind, st.Args))
 				w.j.Step("c%d %s", e.client, truncate(cmdString(st.Args), 200))
@@ -844,6 +917,16 @@ func (w *World) finish() {
 		c.stalled = false
 	}
 	w.collect()
+	for i, c := range w.cs {
+		var ps []string
+		for _, p := range c.pushes {
+			ps = append(ps, p.V.String())
+		}
+		sort.Strings(ps)
+		if len(ps) > 0 {
+			w.trace("c%d pushes %s", i, strings.Join(ps, " "))
+		}
+	}
 	w.res.TraceHash = w.h
 	w.res.SimElapsed = time.Since(w.res.start)
 	w.res.OrderEdges = len(w.vs.Order)
